@@ -3,6 +3,7 @@ from checks import alphwatchcommon
 
 
 def run(ctx):
+    alphwatchcommon.private_work(ctx)
     ctx.prove(families=("alphwatch",))
     alphwatchcommon.run_alphwatch(ctx, "c09")
     ctx.cov["rule"] = (
@@ -12,4 +13,7 @@ def run(ctx):
         "against the fake node with page sizes 1..100, log growth between the count request and any page request, history before start, "
         "404 on the first count, API errors (every 4th case), reorg flags, then drain ticks on which liveness is judged; plus event-loop "
         "and re-observation cases. distinct_nontrivial = cases where model and implementation agree on every observable (delivered "
-        "events, forwarded messages, request log, exit / poller flags) and the Spec holds on the implementation's result")
+        "events, forwarded messages, request log, exit / poller flags) and the Spec holds on the implementation's result. Heights in pipe cases "
+        "come from the real fetchHeight (gated chain-info requests); liveness is judged per event (ground truth = the fake node's log and "
+        "what the fetch loop delivered), including several messages of one transaction in one block, and on drain ticks that are skipped "
+        "because the poller is disabled")
